@@ -455,6 +455,13 @@ func (b *builder) makeIfaces() {
 		}
 		taken := map[string]bool{"Base": true} // method names
 		// embedded interfaces
+		if b.prof.Cluster && k%2 == 0 {
+			hub := t.Deps[0]
+			i.Embeds = append(i.Embeds, pkgT(hub, hub.Embed))
+			for _, mname := range hub.EmbedMethods {
+				taken[mname] = true
+			}
+		}
 		if b.chance(0.3) {
 			for n := 1 + b.rng.Intn(2); n > 0; n-- {
 				if e := b.embeddableIface(c, taken); e != nil {
@@ -578,6 +585,16 @@ func (b *builder) addFixed() {
 		Methods: []Method{{Name: "Load"}, {Name: "Store"}}})
 	t.Ifaces = append(t.Ifaces, &Iface{Name: "FxInstDefined", File: file, Exportable: true, IsDefined: true, AliasOf: t.Locals.GenStore + "[string, *" + t.Locals.Struct + "]", Tags: []string{"fixed"},
 		Methods: []Method{{Name: "Load"}, {Name: "Store"}}})
+	if b.hz.LowerTypeParam {
+		// lower-case type parameter names with unnamed parameters of exactly those types
+		k, e := &T{Kind: KTParam, Name: "k"}, &T{Kind: KTParam, Name: "e"}
+		t.Ifaces = append(t.Ifaces, &Iface{Name: "FxLowerGen", File: file, Exportable: true, Tags: []string{"fixed"},
+			TParams: []TParam{{Name: "k", CKind: "any", Arg: basic("string")}, {Name: "e", CKind: "any", Arg: basic("int")}},
+			Methods: []Method{
+				{Name: "Get", Params: []Param{{"", k}}, Results: []Param{{"", e}, {"", bl}}},
+				{Name: "Put", Params: []Param{{"", k}, {"", e}}},
+				{Name: "Each", Params: []Param{{"fn", &T{Kind: KFunc, Params: []*T{k, e}, Results: []*T{bl}}}}}}})
+	}
 	mk("FxEmpty")
 	mk("FxMarker")
 	mk("FxSingle",
